@@ -130,6 +130,105 @@ Proof.
   exists rc, k, p, price. split; [rewrite <- H1; apply Hl2, L1|]. auto 10.
 Qed.
 
+(* ---- the converse direction: what the EndBlock leaves for a context that was due ---- *)
+
+Lemma new_one_other cfg s a r :
+  wf_cfg cfg -> Inv cfg s -> In (height s, a) (newq s) -> height s < HEIGHT_BOUND ->
+  rid_ctx r <> a -> get r (reqs (new_one cfg s a)) = get r (reqs s).
+Proof.
+  intros Hcfg Hi Hda Hb Hne. destruct (new_one_reqs cfg s a Hcfg Hi Hda Hb) as (N1 & _).
+  destruct (get r (reqs s)) as [q|] eqn:G; [now apply N1|].
+  destruct (get r (reqs (new_one cfg s a))) as [q|] eqn:G'; [|reflexivity].
+  destruct (C06_new_request cfg s a r q Hcfg Hi Hda Hb G G') as (rc & k & p & price & _ & _ & Er & _).
+  exfalso. apply Hne. rewrite Er. reflexivity.
+Qed.
+
+Lemma fold_new_other cfg l s :
+  wf_cfg cfg -> Inv cfg s -> height s < HEIGHT_BOUND -> NoDup l ->
+  (forall c, In c l -> In (height s, c) (newq s)) ->
+  (forall r, ~ In (rid_ctx r) l -> get r (reqs (fold_left (new_one cfg) l s)) = get r (reqs s))
+  /\ (forall c, ~ In c l -> get c (ctxs (fold_left (new_one cfg) l s)) = get c (ctxs s)).
+Proof.
+  intros Hcfg. revert s. induction l as [|a l IH]; intros s Hi Hb Hn Hl; cbn [fold_left]; [auto|].
+  inversion Hn as [|? ? Hna Hn']; subst.
+  assert (Hda : In (height s, a) (newq s)) by (apply Hl; now left).
+  pose proof (Inv_new_one cfg s a Hcfg Hi Hda Hb) as Hi1.
+  pose proof (height_new_one cfg s a Hcfg Hi Hda Hb) as Eh.
+  pose proof (newq_after_new_one cfg s a Hcfg Hi Hda Hb) as Eq.
+  destruct (new_one_view cfg s a Hcfg Hi Hda Hb) as (_ & Hc).
+  destruct (IH (new_one cfg s a) Hi1) as (K1 & K2); try assumption.
+  - now rewrite Eh.
+  - intros c Hc'. rewrite Eh. apply Eq. split; [apply Hl; now right|]. intros ->. contradiction.
+  - split.
+    + intros r Hni. rewrite K1 by (intros E; apply Hni; now right).
+      apply new_one_other; auto. intros E. apply Hni. now left.
+    + intros c Hni. rewrite K2 by (intros E; apply Hni; now right).
+      apply Hc. intros E. apply Hni. now left.
+Qed.
+
+Lemma fold_new_forward cfg l s c :
+  wf_cfg cfg -> Inv cfg s -> height s < HEIGHT_BOUND -> NoDup l ->
+  (forall c, In c l -> In (height s, c) (newq s)) -> In c l ->
+  exists s1, Inv cfg s1 /\ elig_view s s1 /\ In (height s1, c) (newq s1)
+    /\ get c (ctxs s1) = get c (ctxs s)
+    /\ (forall r, rid_ctx r = c ->
+          get r (reqs (fold_left (new_one cfg) l s)) = get r (reqs (new_one cfg s1 c)))
+    /\ get c (ctxs (fold_left (new_one cfg) l s)) = get c (ctxs (new_one cfg s1 c)).
+Proof.
+  intros Hcfg. revert s. induction l as [|a l IH]; intros s Hi Hb Hn Hl Hin; [destruct Hin|].
+  cbn [fold_left]. inversion Hn as [|? ? Hna Hn']; subst.
+  assert (Hda : In (height s, a) (newq s)) by (apply Hl; now left).
+  pose proof (Inv_new_one cfg s a Hcfg Hi Hda Hb) as Hi1.
+  pose proof (height_new_one cfg s a Hcfg Hi Hda Hb) as Eh.
+  pose proof (newq_after_new_one cfg s a Hcfg Hi Hda Hb) as Eq.
+  destruct (new_one_view cfg s a Hcfg Hi Hda Hb) as (Hv & Hc).
+  assert (Hb1 : height (new_one cfg s a) < HEIGHT_BOUND) by now rewrite Eh.
+  assert (Hl1 : forall c0, In c0 l -> In (height (new_one cfg s a), c0) (newq (new_one cfg s a))).
+  { intros c0 Hc'. rewrite Eh. apply Eq. split; [apply Hl; now right|]. intros ->. contradiction. }
+  destruct (eqb_spec c a) as [->|Hne].
+  - exists s. split; [exact Hi|]. split; [apply elig_view_refl|]. split; [exact Hda|]. split; [reflexivity|].
+    destruct (fold_new_other cfg l (new_one cfg s a) Hcfg Hi1 Hb1 Hn' Hl1) as (K1 & K2).
+    split; [intros r Hr; apply K1; now rewrite Hr|now apply K2].
+  - destruct Hin as [E|Hin]; [congruence|].
+    destruct (IH (new_one cfg s a) Hi1 Hb1 Hn' Hl1 Hin) as (s1 & I1 & V1 & D1 & C1 & R1 & X1).
+    exists s1. split; [exact I1|]. split; [eapply elig_view_trans; eauto|]. split; [exact D1|].
+    split; [rewrite C1; now apply Hc|]. auto.
+Qed.
+
+(* what an EndBlock leaves of a context c that is due for a new batch after the expiry phase:
+   its record and its request records are exactly those produced by the handler of c from an
+   intermediate state s1 that satisfies the invariant and shows the same context record,
+   bindings, prices, volumes and time as the post-expiry state sx.  (Only the bank of s1 may
+   differ from that of sx: by the debits of the contexts handled before c, in id order.)
+   C06_batch_spec applied to s1 then says which of the five cases it is. *)
+Theorem C06_end_block_handler cfg s dt c :
+  wf_cfg cfg -> Inv cfg s -> height s < HEIGHT_BOUND ->
+  let sx := fold_left (expire_one cfg) (due (expq s) (height s)) s in
+  let sf := end_block cfg s dt in
+  In (height s, c) (newq sx) ->
+  exists s1, Inv cfg s1 /\ In (height s1, c) (newq s1) /\ height s1 = height s
+    /\ time s1 = time sx /\ binds s1 = binds sx /\ pricing s1 = pricing sx /\ vols s1 = vols sx
+    /\ get c (ctxs s1) = get c (ctxs sx)
+    /\ (forall r, rid_ctx r = c -> get r (reqs sf) = get r (reqs (new_one cfg s1 c)))
+    /\ get c (ctxs sf) = get c (ctxs (new_one cfg s1 c)).
+Proof.
+  intros Hcfg Hi Hb. cbv zeta. intros Hdue.
+  unfold end_block, end_blocker. sproj.
+  set (l1 := due (expq s) (height s)) in *.
+  assert (Hn1 : NoDup l1) by (apply NoDup_due; apply (inv_wf _ _ Hi)).
+  assert (Hl1 : forall c, In c l1 -> In (height s, c) (expq s)) by (intros c0; apply In_due).
+  destruct (fold_expire_phase cfg l1 s Hcfg Hi Hb Hn1 Hl1) as (I1 & H1 & _).
+  set (sx := fold_left (expire_one cfg) l1 s) in *.
+  set (l2 := due (newq sx) (height sx)) in *.
+  assert (Hn2 : NoDup l2) by (apply NoDup_due; apply (inv_wf _ _ I1)).
+  assert (Hl2 : forall c, In c l2 -> In (height sx, c) (newq sx)) by (intros c0; apply In_due).
+  assert (Hb1 : height sx < HEIGHT_BOUND) by now rewrite H1.
+  assert (Hin : In c l2) by (apply In_due; now rewrite H1).
+  destruct (fold_new_forward cfg l2 sx c Hcfg I1 Hb1 Hn2 Hl2 Hin)
+    as (s1 & Is1 & (V1 & V2 & V3 & V4 & V5) & D1 & C1 & R1 & X1).
+  exists s1. split; [exact Is1|]. split; [exact D1|]. split; [congruence|]. auto 10.
+Qed.
+
 (* Example: the hypotheses on the history of StepSpecs_batch.ExB (seven contexts due in the same
    EndBlock: two issue, two are skipped, one is paused for funds, one was paused by the consumer) *)
 Module ExE.
@@ -160,5 +259,17 @@ Module ExE.
     assert (Ex : fold_left (expire_one cfg) (due (expq s_a) (height s_a)) s_a = s_a)
       by (vm_compute; reflexivity).
     rewrite Ex in A2, A3. exists rc, k, p, price. auto.
+  Qed.
+
+  Example C06_end_block_handler_ex :
+    wf_cfg cfg /\ Reach cfg s_a /\ height s_a < HEIGHT_BOUND
+    /\ In (height s_a, c3) (newq (fold_left (expire_one cfg) (due (expq s_a) (height s_a)) s_a))
+    /\ exists rc, get c3 (ctxs s_a) = Some rc
+         /\ get c3 (ctxs (end_block cfg s_a 1)) = Some (paused_ctx rc)
+         /\ get c1 (ctxs (end_block cfg s_a 1)) = option_map (fun x => bump x 2) (get c1 (ctxs s_a))
+         /\ get c2 (ctxs (end_block cfg s_a 1)) = option_map (fun x => bump x 0) (get c2 (ctxs s_a)).
+  Proof.
+    split; [exact wf_cfg_ex|]. split; [exact reach_a|]. split; [vm_compute; reflexivity|].
+    split; [vm_compute; tauto|]. eexists. split; [vm_compute; reflexivity|]. vm_compute. auto.
   Qed.
 End ExE.
